@@ -413,6 +413,13 @@ _add('C16', _O + 'Struct4RatSpn', _S4, ['prodSample_as_coded', 'sumMpe_as_coded'
       'ratspn.RatSpn.sample'])
 _add('C07', _O + 'Struct4Sampling', _S4, ['sumSampleEntry_as_coded', 'branchPmf_as_coded', 'sumSample_frame_as_coded'], ['sampling.sum_sample.entry', 'sampling.sum_sample'])
 
+# wave 5: end-to-end corollaries — the property stated directly about the definitions extracted from the source
+_E2C = 'Deeprob.E2EClt'
+_add('C02', 'DeeprobModel.Props.E2EClt', _E2C, ['e2e_bfs', 'e2e_message_passing_value', 'e2e_message_passing_marginal', 'e2e_message_passing_marginal_row', 'e2e_complete_evidence'], [])
+_add('C06', 'DeeprobModel.Props.E2EClt', _E2C, ['e2e_bfs', 'e2e_message_passing_max', 'e2e_mpe_is_argmax'], [])
+_add('C12', 'DeeprobModel.Props.E2EClt', _E2C, ['e2e_bfs', 'e2e_to_pc_partial', 'e2e_message_passing_marginal'], [])
+_add('C13', 'DeeprobModel.Props.E2EClt', _E2C, ['e2e_clt_roundtrip_bfs'], [])
+
 # net-level prune / marginalize theorems (wave 2)
 PROPS['C09']['modules'] += ['DeeprobModel.Props.C09NetMore', 'DeeprobModel.Props.C09NetKahn']
 PROPS['C09']['theorems'] += ['Deeprob.pruneNet_normal_form', 'Deeprob.pruneNet_valid', 'Deeprob.pruneNet_checkSpn', 'Deeprob.pruneNet_fix',
